@@ -44,7 +44,7 @@ theorem good_modTask_unreleased {cap : Cap} (p : Pool) (t : Nat) (f : PTask → 
     Good cap (p.modTask t f) ∧ (p.modTask t f).Unreleased t := by
   obtain ⟨tk, a, b⟩ := hu
   have hget : (p.modTask t f).tasks[t]? = some (f tk) := by simp [modTask, a]
-  refine ⟨⟨?_, ?_, hg.reg.modTask t f hr hc⟩, ⟨f tk, hget, by rw [hr]; exact b⟩⟩
+  refine ⟨⟨?_, ?_, hg.reg.modTask t f hr hc, hg.grp.of_eq rfl (by simp [modTask])⟩, ⟨f tk, hget, by rw [hr]; exact b⟩⟩
   · cases cap with
     | fin n =>
       obtain ⟨v, hv, hs⟩ := hg.slot
@@ -134,7 +134,7 @@ theorem tame_endCallback (p : Pool) (t tk) : Tame p (p.endCallback t tk) := by
   · exact h.trans (tame_finishTask _ t)
 
 theorem good_setLost {cap : Cap} (p : Pool) (hg : Good cap p) : Good cap ({ p with lost := true } : Pool) :=
-  ⟨hg.slot, hg.phase, hg.reg.setLost⟩
+  ⟨hg.slot, hg.phase, hg.reg.setLost, hg.grp.of_eq rfl rfl⟩
 
 theorem good_keyErrorFinish {cap : Cap} (p : Pool) (t) (hg : Good cap p) : Good cap (p.keyErrorFinish t) := by
   unfold keyErrorFinish
@@ -217,6 +217,19 @@ theorem releasePool_regs (p : Pool) : p.releasePool.running = p.running ∧ p.re
     p.releasePool.ended = p.ended ∧ p.releasePool.lost = p.lost := by
   unfold releasePool; simp
 
+@[simp] theorem schedOpt_groups (p : Pool) (o) : (p.schedOpt o).groups = p.groups := by cases o <;> rfl
+
+theorem releasePool_groups (p : Pool) : p.releasePool.groups = p.groups := by
+  unfold releasePool; simp
+
+theorem moveToEnded_groups (p p1 : Pool) (t : Nat) (h : p.moveToEnded t = some p1) : p1.groups = p.groups := by
+  unfold moveToEnded at h
+  split at h
+  · simp at h; subst h; rfl
+  · split at h
+    · simp at h; subst h; rfl
+    · simp at h
+
 theorem moveToEnded_lost (p p1 : Pool) (t : Nat) (h : p.moveToEnded t = some p1) : p1.lost = p.lost := by
   unfold moveToEnded at h
   split at h
@@ -233,7 +246,10 @@ theorem good_moveRelease {cap : Cap} (p p1 : Pool) (t : Nat) (hg : Good cap p) (
   obtain ⟨hs1, ht1⟩ := moveToEnded_frame p p1 t hm
   have h3 : p1.releasePool.tasks = p1.tasks := releasePool_tasks' p1
   obtain ⟨r1, r2, r3, r4⟩ := releasePool_regs p1
-  refine ⟨?_, ?_, ?_⟩
+  have hgr : ((p1.releasePool).modTask t fun k => { k with released := true }).groups = p.groups := by
+    rw [show ((p1.releasePool).modTask t fun k => { k with released := true }).groups = p1.releasePool.groups from rfl,
+      releasePool_groups, moveToEnded_groups p p1 t hm]
+  refine ⟨?_, ?_, ?_, hg.grp.of_eq hgr (by simp [modTask, h3, ht1])⟩
   · cases cap with
     | fin n =>
       obtain ⟨v, hv, hs⟩ := hg.slot
@@ -335,7 +351,7 @@ theorem good_regCancel {cap : Cap} (p : Pool) (t : Nat) (hg : Good cap p) (hr : 
     Good cap ({ p with running := p.running.erase t, cancelledR := p.cancelledR ++ [t] } : Pool) ∧
     ({ p with running := p.running.erase t, cancelledR := p.cancelledR ++ [t] } : Pool).ReadyToEnd t := by
   obtain ⟨tk, a, b, c⟩ := hr
-  refine ⟨⟨hg.slot, hg.phase, hg.reg.regCancel t ht ?_⟩, ⟨tk, a, b, c⟩⟩
+  refine ⟨⟨hg.slot, hg.phase, hg.reg.regCancel t ht ?_, hg.grp.of_eq rfl rfl⟩, ⟨tk, a, b, c⟩⟩
   intro tk' h
   rw [a] at h; cases h
   exact nonNYR_ne _ c
